@@ -61,8 +61,10 @@ OwnFails(e) ==
         [] e.op = "decode" -> Tag(okB, "C10.bounds") \o Tag(okV /\ (IsErr(DecodeFrame(Cells(bufs[e.b + 1], e.lo, e.hi))) <=> e.err # ""), "C10.state")
         [] OTHER -> Tag(okB /\ okV, "C10.state")
 
-ReuseFails(e) == IF e.err2 # "" \/ e.errfresh # "" THEN Tag(e.err2 = e.errfresh, "C10.reuse")
-                 ELSE Tag(e.used = e.fresh, "C10.reuse")
+ReuseFails(e) == (IF e.err2 # "" \/ e.errfresh # "" THEN Tag(e.err2 = e.errfresh, "C10.reuse")
+                  ELSE Tag(e.used = e.fresh, "C10.reuse"))
+                 \* the value the caller kept from the first decode is not rewritten by the second decode into the same variable
+                 \o (IF "kept1" \in DOMAIN e /\ e.err1 = "" THEN Tag(e.kept2 = e.kept1, "C10.reuse") ELSE <<>>)
 \* a decoder given bufs[lo..hi) must leave the WHOLE backing array (incl. the spare capacity behind hi) untouched
 SubsliceFails(e) == Tag(e.post = e.pre, "C10.bounds")
 BandFails(e) == Tag(e.after = e.before /\ e.fresh = e.before, "C10.band")
